@@ -10,7 +10,8 @@ META = {
                    "(P13) Checkout::poll polls the waiter before the connector on every path and returns a received connection unchanged; (P9) PoolInner::push offers a "
                    "connection to queued waiters before the idle list and returns only after delivery or draining; (P14) the delayed-drop state is chosen iff "
                    "continue_after_preemption, as_delayed moves the connector into a checkout with the same token and pool, and the pinned drop spawns exactly that; "
-                   "(P3) the background checkout's Pooled result returns through WhenReady; (C14.1) with the option off the connector is owned by value and no spawn is reachable.",
+                   "(P3) the background checkout's Pooled result returns through WhenReady; (C14.1) with the option off the connector is owned by value and no spawn is reachable."
+                   " P12 / P13 are decision tables evaluated abstractly on the expanded units of Waiting::poll / Checkout::poll; P14 also checks the converse (as_delayed declines only when nothing is left to continue).",
     "trusted_base": ["rustc type/borrow checker", "tokio oneshot wakes the receiver's task on send/drop", "tokio::spawn runs the future"],
     "assumptions": ["wake-ups inside tokio's oneshot (our side registers the waker: E-WAKER)"],
     "undecided": "'no later than its next poll' in wall-clock terms; scheduling of the spawned task",
